@@ -413,7 +413,7 @@ func (cl *refClient) Do(method, target, ctype string, body []byte) (*refMsg, err
 			return nil, err
 		}
 		if m == nil {
-			return nil, errors.New("timeout waiting for response")
+			return nil, fmt.Errorf("timeout waiting for response (unparsed plaintext %d bytes %q, undecrypted %d bytes)", len(cl.plain), trunc(string(cl.plain), 40), len(cl.enc))
 		}
 		if m.Event {
 			cl.Events = append(cl.Events, *m)
